@@ -128,3 +128,60 @@ fn c04_fields_indef() {
     }
     kani::cover!(true);
 }
+
+// ---- fixed-size arrays go through the `unsafe` ArrayVec (MaybeUninit buffer, length-tracked Drop, forget-on-success):
+// every element decoded so far is dropped exactly once on every path (too few, too many, element error, success), and
+// Kani's pointer / validity checks run over `push`, `into_array` and `Drop`.  Instance proofs (N = 2 and N = 0).
+static mut MADE: u32 = 0;
+static mut DROPPED: u32 = 0;
+struct Dc(#[allow(dead_code)] u8);
+impl<'b, C> Decode<'b, C> for Dc {
+    fn decode(d: &mut Decoder<'b>, _: &mut C) -> Result<Self, crate::decode::Error> {
+        let v = d.u8()?;
+        unsafe { MADE += 1 }
+        Ok(Dc(v))
+    }
+}
+impl Drop for Dc { fn drop(&mut self) { unsafe { DROPPED += 1 } } }
+
+// @harness name=c02_arrayvec_drop2 props=C02 kind=bounded bound="[Dc; 2] from every input of <= 5 bytes (definite and indefinite framing); element loop unwound 6 times" tier=thorough
+#[kani::proof]
+#[kani::unwind(6)]
+#[cfg_attr(feature = "alloc", kani::stub(crate::decode::Error::with_message, crate::kani_refspec_stubs::with_message))]
+#[cfg_attr(feature = "alloc", kani::stub(crate::decode::Error::message, crate::kani_refspec_stubs::message))]
+fn c02_arrayvec_drop2() {
+    let (a, n) = input::<5>();
+    let buf = &a[.. n];
+    let mut d = Decoder::new(buf);
+    let r: Result<[Dc; 2], _> = Decode::decode(&mut d, &mut ());
+    assert!(d.position() <= n);
+    match r {
+        Ok(arr) => { unsafe { assert!(MADE == 2 && DROPPED == 0) } drop(arr); unsafe { assert!(DROPPED == 2) } }
+        Err(_) => unsafe { assert!(DROPPED == MADE) }                       // nothing leaked, nothing dropped twice
+    }
+    kani::cover!(unsafe { MADE } == 2);
+}
+
+// @harness name=c02_arrayvec_drop_concrete props=C02 kind=complete tier=thorough note="framing concrete (82 / 83 / 81 / 9f..ff), element bytes symbolic: success, too many, too few, element error"
+#[kani::proof]
+#[kani::unwind(6)]
+#[cfg_attr(feature = "alloc", kani::stub(crate::decode::Error::with_message, crate::kani_refspec_stubs::with_message))]
+#[cfg_attr(feature = "alloc", kani::stub(crate::decode::Error::message, crate::kani_refspec_stubs::message))]
+fn c02_arrayvec_drop_concrete() {
+    let x: u8 = kani::any(); let y: u8 = kani::any(); let z: u8 = kani::any();
+    let which: u8 = kani::any();
+    let (buf, len): ([u8; 7], usize) = match which {
+        0 => ([0x82, 0x18, x, 0x18, y, 0, 0], 5),             // exactly two
+        1 => ([0x83, 0x18, x, 0x18, y, 0x18, z], 7),          // one too many
+        2 => ([0x81, 0x18, x, 0, 0, 0, 0], 3),                // one too few
+        3 => ([0x82, 0x18, x, 0xf6, 0, 0, 0], 4),             // second element is not an integer
+        _ => ([0x9f, 0x18, x, 0x18, y, 0xff, 0], 6),          // indefinite framing, two elements
+    };
+    let mut d = Decoder::new(&buf[.. len]);
+    let r: Result<[Dc; 2], _> = Decode::decode(&mut d, &mut ());
+    match r {
+        Ok(arr) => { assert!(which == 0 || which >= 4); unsafe { assert!(MADE == 2 && DROPPED == 0) } drop(arr); unsafe { assert!(DROPPED == 2) } }
+        Err(_) => { assert!(which >= 1 && which <= 3); unsafe { assert!(DROPPED == MADE) } }
+    }
+    kani::cover!(which == 1);
+}
